@@ -101,9 +101,12 @@ def run(prog: Program, rep, thorough: bool) -> None:
            F.t: S('t'), F.a: S('a'), F.rho: S('rho'), 'drag': S('drag'), row_list: ev.new_list(st, [SymObj('earlier_row')]),
            'data_filter': SymObj('data_filter')}
     names_in_block = {n.id for st_ in LB.stmts for n in ast.walk(st_) if isinstance(n, ast.Name)}
+    from .c18 import config_aliases
     for n in names_in_block:
         if n in lm:
             env[n] = S(f'cfg.{lm[n]}')
+        elif n in config_aliases(F.func):
+            env[n] = st.heap[selfv.oid]['_config']
     if speed_name and speed_name not in env:
         env[speed_name] = S('speed')
     assigned_in_block = {n.id for st_ in LB.stmts for n in ast.walk(st_) if isinstance(n, ast.Name) and isinstance(n.ctx, ast.Store)}
@@ -115,6 +118,21 @@ def run(prog: Program, rep, thorough: bool) -> None:
             except Undecided:
                 env[n] = SymObj(n) if n in F.func.params else S(f'${n}')
     st.env.update(env)
+    # locals set once before the loop from the calculator's own state (a limits object built from self._config, say)
+    # are evaluated rather than guessed
+    for n in sorted(names_in_block):
+        if n in lm or n in assigned_in_block or n in F.func.params or n in (F.P, F.V, F.t, F.a, F.rho, row_list, 'drag', 'self'):
+            continue
+        try:
+            ds_ = [d for d in F.defs_reaching(LB.stmts[0], n) if not F.in_loop(d)]
+        except AnalysisError:
+            continue
+        if len(ds_) == 1 and isinstance(ds_[0].ast, (ast.Assign, ast.AnnAssign)) and ds_[0].ast.value is not None \
+                and len(F.defs_reaching(LB.stmts[0], n)) == 1:
+            try:
+                st.env[n] = ev.eval(ds_[0].ast.value, st, Ctx(tc, F.func, None, 0))
+            except Undecided:
+                pass
     try:
         tree = ev.exec_block(LB.stmts, st, Ctx(tc, F.func, None, 0))
     except Undecided as exc:
@@ -138,6 +156,8 @@ def run(prog: Program, rep, thorough: bool) -> None:
                 elif t.kind in ('pos', 'nonneg') and (t.rf.equals(rf) or t.rf.equals(-rf)):
                     problems.append(f'the {fld} test is `{t!r}`: not the strict `state < limit` of the statement')
                     hit = (fld, pol)
+            if hit is None and (t.kind == 'opaque' or t.rf is None):
+                raise AnalysisError(f'limit block: the outcome depends on `{t!r}`, which the evaluator cannot read')
             if hit is None:
                 problems.append(f'the limit block depends on `{t!r}`, which is none of the three limit tests on the '
                                 f'current state')
